@@ -125,6 +125,35 @@ Definition step (w : world) (a : action) (O : oracle) : world * obs :=
       (w <| w_st := h_st h |>, obs_of r h)
   end.
 
+(* the same with the router as mounted ([serve_top]): what the correspondence check runs.  Without the
+   global remember wrapper it IS [step] (wstep_unwrapped below), so every theorem about [step] speaks
+   about deployments that put remember.Middleware on the application routes only. *)
+Definition wstep (w : world) (a : action) (O : oracle) : world * obs :=
+  match a with
+  | AReq req =>
+      let b := q_browser req in
+      let sess0 := jar_get b (w_sess w) in
+      let cook0 := jar_get b (w_cook w) in
+      let '(r, h) := serve_top (mkEnv C cfg O req cook0 sess0) (init_hst (w_st w) O) in
+      let w1 := w <| w_st := h_st h |> in
+      let w2 := match h_out h with
+                | Some wr => w1 <| w_sess := jar_set b (apply_events sess0 (w_sev wr)) (w_sess w1) |>
+                                <| w_cook := jar_set b (apply_events cook0 (w_cev wr)) (w_cook w1) |>
+                | None => w1
+                end in
+      (w2, obs_of r h)
+  | _ => step w a O
+  end.
+
+Lemma serve_top_unwrapped E : c_wrap_remember (e_cfg E) = false -> serve_top E = serve E.
+Proof. intros H. unfold serve_top. rewrite H. destruct (q_route (e_req E)); reflexivity. Qed.
+
+Lemma wstep_unwrapped w a O : c_wrap_remember cfg = false -> wstep w a O = step w a O.
+Proof.
+  intros H. destruct a; try reflexivity. unfold wstep, step.
+  rewrite serve_top_unwrapped by exact H. reflexivity.
+Qed.
+
 Fixpoint run (w : world) (l : list (action * oracle)) : world * list obs :=
   match l with
   | [] => (w, [])
